@@ -43,7 +43,7 @@ CLAUSE_PROP = {
 # ------------------------------------------------------------------------------------------ species pool (intended compositions)
 POOL = {
     "H": ({"H": 1}, 0), "H+": ({"H": 1}, 1), "H-": ({"H": 1}, -1), "H2": ({"H": 2}, 0), "H2+": ({"H": 2}, 1), "H3+": ({"H": 3}, 1),
-    "e-": ({}, -1), "E": ({}, -1), "E-": ({}, -1),
+    "e-": ({}, -1), "E": ({}, -1), "E-": ({}, -1), "M": ({"M": 1}, 0), "M+": ({"M": 1}, 1),
     "He": ({"He": 1}, 0), "He+": ({"He": 1}, 1), "He++": ({"He": 1}, 2),
     "C": ({"C": 1}, 0), "C+": ({"C": 1}, 1), "CH": ({"C": 1, "H": 1}, 0), "CH+": ({"C": 1, "H": 1}, 1), "CH2": ({"C": 1, "H": 2}, 0),
     "O": ({"O": 1}, 0), "OH": ({"O": 1, "H": 1}, 0), "OH+": ({"O": 1, "H": 1}, 1), "H2O": ({"H": 2, "O": 1}, 0),
@@ -83,7 +83,7 @@ def products_index():
     global _products_index
     if _products_index is None:
         idx = {}
-        names = sorted(POOL)
+        names = sorted(n_ for n_ in POOL if n_ not in NOT_DRAWN)
         for k in (1, 2, 3):
             for combo in itertools.combinations_with_replacement(names, k):
                 idx.setdefault(total(combo), []).append(combo)
@@ -105,6 +105,10 @@ def balanced_reaction(rng: random.Random, pool: list[str]):
 
 # ------------------------------------------------------------------------------------------ building real networks
 
+# compositions known to the pool but only used by targeted networks (with the default lists `M` is a pseudo element, not a species)
+NOT_DRAWN = {"M", "M+"}
+
+
 def build_network(desc: dict):
     """desc: {"reactions": [(rnames, pnames)], "required": [...], "ode_modifier": {...}, "cooling": [...], "heating_user": [...],
               "cooling_user": [...], "dups": bool}"""
@@ -118,7 +122,13 @@ def build_network(desc: dict):
     from naunet.species import Species
     Species.reset()
     kw = {}
-    if desc.get("pseudo_elements"):
+    if desc.get("elements") is not None:
+        # the user's own element list with an EMPTY pseudo-element list (as the shipped `minimal` example has it): every name is a species
+        kw["elements"] = list(desc["elements"])
+        kw["pseudo_elements"] = list(desc.get("pseudo_elements") or [])
+        Species.set_known_elements(list(kw["elements"]))
+        Species.set_known_pseudoelements(list(kw["pseudo_elements"]))
+    elif desc.get("pseudo_elements"):
         # a user-declared pseudo-reactant list (constructor arguments `elements` / `pseudo_elements`); the reactions below are built
         # with the same lists installed, as the file readers build them inside the constructor
         kw["elements"] = list(Species.default_elements)
@@ -445,7 +455,7 @@ def cases_from_tlc(ctx: Ctx, n: int) -> list[dict]:
 
 def random_cases(rng: random.Random, n: int) -> list[dict]:
     out = []
-    names = sorted(POOL)
+    names = sorted(n_ for n_ in POOL if n_ not in NOT_DRAWN)
     while len(out) < n:
         pool = rng.sample(names, rng.randint(5, 14))
         if rng.random() < 0.6 and not (set(pool) & ELECTRONS):
@@ -633,6 +643,9 @@ def main(ctx: Ctx) -> int:
         {"reactions": [(["H2", "O"], ["OH", "H"]), (["CH3OH", "He+"], ["CH", "OH", "H", "H", "He+"]), (["H", "H", "H"], ["H2", "H"]),
                        (["CH3OH", "H+"], ["CH", "OH", "H", "H", "H+"]), (["OH", "H"], ["O", "H2"])],
          "required": ["He"], "via_files": ["kida", "naunet"], "origin": "random"},
+        # a user element list that declares a generic metal `M` (a symbol the DEFAULT pseudo-element list also holds), no pseudo-element list
+        {"reactions": [(["M", "H+"], ["M+", "H"]), (["M+", "e-"], ["M"]), (["H", "H"], ["H2"]), (["H+", "e-"], ["H"])], "required": [],
+         "elements": ["e", "H", "He", "M"], "origin": "random"},
         # a UMIST file: one or two reactants, up to FOUR products (every product column used)
         {"reactions": [(["H2", "O"], ["OH", "H"]), (["CH3OH", "H+"], ["CH", "OH", "H2", "H+"]), (["CH3OH", "He+"], ["CH2", "OH", "H", "He+"]), (["OH", "H"], ["O", "H2"])],
          "required": [], "via_files": ["umist"], "origin": "random"},
@@ -714,6 +727,18 @@ def main(ctx: Ctx) -> int:
                 net.add_reaction(Reaction(list(r_), list(p_), alpha=1.0e-10 * len(desc["reactions"]), reaction_type=ReactionType.GAS_TWOBODY))
             else:
                 net = prebuilt.get(ci) or build_network(desc)
+            if desc.get("elements") is not None and ci not in prebuilt:
+                # every name of the description that is not a declared marker is a species the network must hold (a name that silently
+                # vanishes from its reactions unbalances them without any reaction being "wrong")
+                from naunet.species import Species as _Sp
+                markers = set(desc.get("pseudo_elements") or [])
+                wanted = sorted({x for r_, p_ in desc["reactions"] for x in r_ + p_ if x not in markers})
+                lost = [x for x in wanted if not any(sp_ == _Sp(x) for sp_ in net.species)]
+                if lost and pid in ("C01", "C04"):
+                    ctx.violation(f"{pid}|SpeciesDroppedFromReactions|build", f"a network built with the element list {desc['elements']} and the pseudo-element list "
+                                  f"{sorted(markers)} lost the species {lost} of its reactions {desc['reactions'][:4]}: held {sorted(x.name for x in net.species)}",
+                                  {"desc": {k: v for k, v in desc.items() if k != 'N'}})
+                    continue
             if desc.get("unparseable"):
                 held = sorted(x.name for x in net.species)
                 if pid in ("C01", "C04"):
